@@ -1,9 +1,10 @@
 PROPERTY = "C03"
 LEVEL = "proof"
-LEAN_MODULES = ["CifModel.Props.C03", "CifModel.Lemmas.ParserTop", "CifModel.Lemmas.ParserDetProd", "CifModel.Lemmas.ParserDetLex", "CifModel.Lemmas.ParserDet"]
+LEAN_MODULES = ["CifModel.Props.C03", "CifModel.Props.C03Extra", "CifModel.Lemmas.ParserTop", "CifModel.Lemmas.ParserDetProd", "CifModel.Lemmas.ParserDetLex", "CifModel.Lemmas.ParserDet"]
 REQUIRED = ["CifModel.C03_total", "CifModel.C03_clamp", "CifModel.C03_report_site", "CifModel.C03_prefix_determinism", "CifModel.C03_result",
             "CifModel.C03_reported_partial", "CifModel.C03_die_is_first", "CifModel.C03_accept_all", "CifModel.C03_codes_nonzero",
-            "CifModel.Model.Parser.parse_spec", "CifModel.Model.Parser.blocksLoop_det", "CifModel.Model.Lexer.nextToken_detl"]
+            "CifModel.C03_fuel_suffices", "CifModel.C03_nofuel_only_from_callback", "CifModel.C03_callback_lines",
+            "CifModel.C03_scanner_lines_monotone", "CifModel.Model.Parser.parse_spec", "CifModel.Model.Parser.blocksLoop_det", "CifModel.Model.Lexer.nextToken_detl"]
 GEN = ["ErrCodes", "CharClass", "ParseConsts"]
 FAMILIES = ["parse", "parsebytes"]
 TRUSTED_BASE = [
